@@ -11,3 +11,7 @@ open IrVerif.Scope
 #print axioms C03_pure_ext
 #print axioms C03_pure_sites
 #print axioms C03_pure_frame
+#print axioms IrVerif.Scope.C03_roundtrip_ext_graph
+#print axioms IrVerif.Scope.C03_roundtrip_ext_devices
+#print axioms IrVerif.Scope.C03_ext_certificate_decidable
+#print axioms IrVerif.Scope.C03_roundtrip_ext_partial
